@@ -73,6 +73,20 @@ type Target struct {
 	Transport *http.Transport
 }
 
+// StripEscapedPrefix removes the prefix from an escaped path. The prefix
+// is not escaped, and the client may have escaped any of its characters:
+// the part of the escaped path which decodes to the prefix is removed and
+// the rest keeps the escaping it has. It returns false if the escaped
+// path does not start with the prefix.
+func StripEscapedPrefix(escaped, prefix string) (string, bool) {
+	for i := 0; i <= len(escaped) && i <= 3*len(prefix); i++ {
+		if p, err := url.PathUnescape(escaped[:i]); err == nil && p == prefix {
+			return escaped[i:], true
+		}
+	}
+	return "", false
+}
+
 func (t *Target) BuildRedirectURL(requestURL *url.URL) {
 	// RawPath starts from the escaped path of the target: the decoded one is
 	// not a valid encoding if it needs escaping, and the encoding of the
@@ -110,14 +124,14 @@ func (t *Target) BuildRedirectURL(requestURL *url.URL) {
 			if strings.HasPrefix(replacePath, t.StripPath) {
 				replacePath = replacePath[len(t.StripPath):]
 			}
-			if strings.HasPrefix(replaceRawPath, t.StripPath) {
-				replaceRawPath = replaceRawPath[len(t.StripPath):]
+			if rest, ok := StripEscapedPrefix(replaceRawPath, t.StripPath); ok {
+				replaceRawPath = rest
 			}
 		}
 		// add prepend path
 		if t.PrependPath != "" {
 			replacePath = t.PrependPath + replacePath
-			replaceRawPath = t.PrependPath + replaceRawPath
+			replaceRawPath = (&url.URL{Path: t.PrependPath}).EscapedPath() + replaceRawPath
 		}
 		// do path replacement
 		t.RedirectURL.Path = strings.Replace(t.RedirectURL.Path, "$path", replacePath, 1)
